@@ -105,7 +105,7 @@ def _propagate_temps(fn):
             later = blk[blk.index(st) + 1:]
             uses = [x for n_ in later for x in ast.walk(n_) if isinstance(x, ast.Name) and x.id == name and isinstance(x.ctx, ast.Load)]
             alluses = [x for x in nodes if isinstance(x, ast.Name) and x.id == name and isinstance(x.ctx, ast.Load)]
-            if not uses or len(uses) != len(alluses) or len(uses) > 4:
+            if not uses or len(uses) != len(alluses) or len(uses) > (12 if isinstance(val, ast.Attribute) else 4):
                 continue
             ops = {x.id for x in ast.walk(val) if isinstance(x, ast.Name)}
             last = max(u.lineno for u in uses)
@@ -121,7 +121,16 @@ def _propagate_temps(fn):
                     bases.add(b_.id if isinstance(b_, ast.Name) else None)
                 nxt = later[0] if later else None
                 in_next_header = nxt is not None and all(any(u is x for x in ast.walk(_header(nxt))) for u in uses)
-                if not (bases <= excnames or in_next_header):
+                # `p = self.path`: an alias of an attribute that this function never stores and that no method call on self can re-bind
+                # between the definition and the last read
+                self_alias = False
+                if bases <= (excnames | {"self"}) and isinstance(val, ast.Attribute) and isinstance(val.value, ast.Name) and val.value.id == "self":
+                    stored_attr = any(isinstance(x, ast.Attribute) and isinstance(x.ctx, (ast.Store, ast.Del)) and isinstance(x.value, ast.Name)
+                                      and x.value.id == "self" and x.attr == val.attr for x in nodes)
+                    self_calls = any(isinstance(x, ast.Call) and isinstance(x.func, ast.Attribute) and isinstance(x.func.value, ast.Name)
+                                     and x.func.value.id == "self" and st.lineno < getattr(x, "lineno", 0) <= last for x in nodes)
+                    self_alias = not stored_attr and not self_calls
+                if not (bases <= excnames or in_next_header or self_alias):
                     continue
             # substitute
             class R(ast.NodeTransformer):
